@@ -9,10 +9,10 @@ A7 = "A7 Tokenizer::next is a deterministic function of (input, cursor, registry
 A8 = "A8 a &str is determined by its characters (a@ == b@ ==> a == b)"
 NC_COMPLETE = "completeness: that every sentence of the grammar is accepted (the parser theorem is a soundness theorem)"
 PROPS = {
- 'C01': dict(units=['tp', 'pr', 'lb'], assumptions=[A1, A2, A3, A6, A7],
+ 'C01': dict(units=['tp', 'pr', 'lb', 'dd'], assumptions=[A1, A2, A3, A6, A7],
     level_text="Unbounded proof (Verus) on the extracted real source: every slice/index/arithmetic/unwrap precondition in tokenizer, parser and printer is discharged and every loop and recursion has a decreasing measure, for all UTF-8 inputs. Stack depth is outside the verifier's model (known finding).",
-    level_note="Assumes A1 A2 A3 A6 A7 (DESIGN.md 4); describe() is covered under C18; stack exhaustion is a known finding outside the model.",
-    not_covered=["stack exhaustion (the verifier's model has an unbounded stack; known finding)", "describe() (C18)", "Decimal::from_str totality (A3)"]),
+    level_note="Assumes A1 A2 A3 A6 A7 (DESIGN.md 4); describe() safety/termination is proved in unit dd (descriptor applications opaque); stack exhaustion is a known finding outside the model.",
+    not_covered=["stack exhaustion (the verifier's model has an unbounded stack; known finding)", "the default_*_descriptor bodies called by describe() (C18: bounded stand-in)", "Decimal::from_str totality (A3)"]),
  'C02': dict(units=['tp', 'lb', 'hv'], assumptions=[A1, A2, A3, A6, A7, A8, "TP uses axiom_bp (binding powers of a registered infix operator are even >= 2 / odd >= 1); unit LB proves it (lemma_bp) for the real get_precidence under the domain 0 < p <= 10^9"],
     level_text="Unbounded proof: every Parser::parse_* function returns Ok only with a ghost derivation witness that chains the tokenizer's tokens from the entry token to the exit token, carries the left/right spine precedence constraints under which the tree is unique, and whose AST is the result (loop invariant of the Pratt loop, all productions, any size).",
     level_note="Soundness of grouping; uniqueness of the witness and completeness of acceptance are not proved. Assumes A1 A2 A3 A6 A7 A8.",
@@ -61,13 +61,13 @@ PROPS = {
  'C17': dict(units=['hv'], assumptions=[A1, A2, A3, A6],
     level_text="Unbounded proof: every accessor is Ok on exactly one variant and returns the payload; Value::from(n) denotes n for i8..i64/u8..u64 (i128/u128 beyond 96 bits: known finding); integer() returns n for every number that is the integer n in i64 range whatever its scale, Err otherwise.",
     level_note="from_iN/normalize/to_string/parse contracts are A3/A2.", not_covered=["f32/f64 conversions"]),
- 'C18': dict(units=['ds'], assumptions=[A1, A5, A6],
-    level_text="Unbounded proof: each of the nine get_*_descriptor returns the entry stored under exactly (kind, name) if it has that kind, else the documented default; each set_* writes exactly that key; a registration is local to its key. describe() itself (iterator adapters, dyn calls) is outside Verus's reach.",
-    level_note="Store behind trusted new/set/get over a map view (A5); describe() and the default_* bodies are outside Verus's reach: bounded stand-in only.",
-    always_bounded=dict(function='ExprAST::describe + default_*_descriptor', categories=['parse'],
-        why="describe() uses iterator adapters and applications of dyn Fn values returned by calls; Verus rejects it, Kani needs minutes per node kind on String-heavy code",
+ 'C18': dict(units=['ds', 'dd'], assumptions=[A1, A5, A6],
+    level_text="Unbounded proof: each of the nine get_*_descriptor returns the entry stored under exactly (kind, name) if it has that kind, else the documented default; each set_* writes exactly that key; a registration is local to its key; describe() (iterator adapters normalised to index loops, rule 26; descriptor applications opaque, rule 7) equals the spec function sdesc: every node is rendered by the descriptor looked up for its kind and name, applied to the renderings of its children in order.",
+    level_note="Store behind trusted new/set/get over a map view (A5), frozen during one describe() (A4); the default_*_descriptor bodies (join, format) are outside Verus's reach: bounded stand-in only.",
+    always_bounded=dict(function='default_*_descriptor bodies (through describe() with the default descriptors)', categories=['parse'],
+        why="the nine default_*_descriptor functions use Vec<String>::join and String concatenation on moved values; their text is the documented default rendering, so they are compared with the reference rendering on a corpus",
         bound="fixed corpus (about 1700 inputs of vx/corpus.py, every node kind, default descriptors only - registration is not reachable through the public API): describe() returns, and equals the documented default rendering"),
-    not_covered=["ExprAST::describe beyond the bounded corpus (dispatch per node, no-panic)", "describe() with registered (non-default) descriptors"]),
+    not_covered=["default_*_descriptor bodies beyond the bounded corpus"]),
 }
 for _p in PROPS.values():
     _p.setdefault('level', 'proof')
